@@ -98,9 +98,27 @@ pub fn check(sc: &Scenario, res: &RunResult) -> Vec<Violation> {
         out.push(v("C08", "user-mappings-missing", format!("{} modules, {} user mappings", mods.len(), nuser)));
         return out;
     }
-    let (target_mods, user_mods) = mods.split_at(mods.len() - nuser);
-    // user mappings verbatim, in order, after the target's modules
-    for (m, u) in user_mods.iter().zip(opts.user_mappings.iter()) {
+    // the module that holds the program's entry point is first - also when it is one the caller supplied
+    let entry_addr = opts.direct_auxv.as_ref().map(|d| d[3]).filter(|x| *x != 0).or_else(|| if w.auxv_missing || w.threads.first().map(|t| t.zombie && !w.threads.iter().skip(1).any(|t| !t.zombie)).unwrap_or(false) { None } else { w.auxv.iter().find(|(k, _)| *k == 9).map(|(_, v)| *v) });
+    let head_user: Option<usize> = entry_addr.and_then(|e| opts.user_mappings.iter().position(|u| e >= u.start && e - u.start < u.size.min(u32::MAX as u64)));
+    let mut user_order: Vec<usize> = (0..nuser).collect();
+    let (target_mods, user_mods): (&[decode::ModRec], Vec<&decode::ModRec>) = match head_user {
+        Some(i) => {
+            user_order.retain(|x| *x != i);
+            user_order.insert(0, i);
+            let rest = &mods[1..];
+            let (t, tail) = rest.split_at(rest.len() - (nuser - 1));
+            let mut um: Vec<&decode::ModRec> = vec![&mods[0]];
+            um.extend(tail.iter());
+            (t, um)
+        }
+        None => {
+            let (t, tail) = mods.split_at(mods.len() - nuser);
+            (t, tail.iter().collect())
+        }
+    };
+    // user mappings verbatim: the one holding the entry point first, the others in order after the target's modules
+    for (m, u) in user_mods.iter().zip(user_order.iter().map(|i| &opts.user_mappings[*i])) {
         let want_name = u.name.as_ref().map(|n| String::from_utf8_lossy(&n.0).into_owned()).unwrap_or_default();
         let mut want_cv = 0x4270_454cu32.to_le_bytes().to_vec();
         want_cv.extend_from_slice(&u.identifier.0);
